@@ -82,7 +82,8 @@ package mapping
 // every struct element of the list is decoded into a value newly made for that element (so nothing an earlier
 // element set - e.g. an optional field - can show through in a later one)
 //@   loop 1 iteration-ensures [struct-element-decoded-into-its-own-new-value] calls(u.Unmarshal) == 1 ==> calls(reflect.New) == 1 && arg(Interface, 0, 2) == ret(reflect.New) && arg(u.Unmarshal, 2) == ret(Interface, 0, 2) && arg(u.Unmarshal, 1) == unbox(ret(Interface, 0, 1), map[string]any)
-//@   ensures [field-gets-a-fresh-slice] calls(value.Set) == calls(value.Set, ret(reflect.MakeSlice)) && (calls(value.Set) >= 1 ==> calls(reflect.MakeSlice) == 1)
+//@   ensures [field-gets-a-fresh-slice] result == nil && calls(reflect.MakeSlice) == 1 && (ret(Len, 0, 2) == 0 || local(valid)) ==> arg(Set, 0, last) == value && arg(Set, 1, last) == ret(reflect.MakeSlice)
+//@   ensures [nothing-stored-after-the-loop-otherwise] calls(reflect.MakeSlice) == 0 || result != nil || (ret(Len, 0, 2) != 0 && !local(valid)) ==> tail(calls(Set)) == 0
 //@   ensures [not-settable] !ret(CanSet) ==> result == errValueNotSettable && calls(Set) == 0
 
 // ---------------- field dispatch: what may be stored, and only after which checks (C05) ----------------
@@ -384,7 +385,7 @@ package mapping
 //@   prop C05
 //@   opaque UnmarshalFromString, Deref, fillSliceValue
 //@   requires u != nil
-//@   loop 1 invariant 0 <= i && calls(fillSliceValue) == i && calls(Set) == 0 && calls(reflect.MakeSlice) == 1
+//@   loop 1 invariant 0 <= i && i <= len(slice) && calls(fillSliceValue) == i && calls(Set) == 0 && calls(reflect.MakeSlice) == 1
 //@   loop 1 iteration-ensures [element-through-the-checked-store] calls(u.fillSliceValue) == 1 && arg(fillSliceValue, 2) == at_head(i) && arg(fillSliceValue, 3) == baseFieldKind && arg(fillSliceValue, 1) == conv && arg(fillSliceValue, 4) == slice[at_head(i)] && ret(fillSliceValue) == nil
 //@   ensures [decode-error] calls(UnmarshalFromString) == 1 && ret(UnmarshalFromString) != nil ==> result == ret(UnmarshalFromString) && calls(Set) == 0
 //@   ensures [anything-else-unsupported] calls(UnmarshalFromString) == 0 ==> result == errUnsupportedType && calls(Set) == 0
@@ -494,3 +495,20 @@ package mapping
 //@   loop 1 iteration-ensures [string-only-into-string] dereffedElemKind != 23 && dereffedElemKind != 25 && dereffedElemKind != 21 && typeis(data, string) ==> dereffedElemKind == 24
 //@   loop 1 iteration-ensures [number-through-the-checked-store] dereffedElemKind != 23 && dereffedElemKind != 25 && dereffedElemKind != 21 && typeis(data, json.Number) ==> calls(setValue) == 1 && ret(setValue) == nil && arg(setValue, 0) == dereffedElemKind && arg(setValue, 2) == ret(String)
 //@   loop 1 iteration-ensures [other-only-with-equal-kind] dereffedElemKind != 23 && dereffedElemKind != 25 && dereffedElemKind != 21 && !typeis(data, bool) && !typeis(data, string) && !typeis(data, json.Number) ==> calls(Kind) == 1 && ret(Kind) == dereffedElemKind && arg(SetMapIndex, 2) == ret(MapIndex)
+// ---------------- tag text -> key and options (C05) ----------------
+// doParseKeyAndOptions: the first segment of the tag is the key, every further segment is parsed as one option
+// (in order, against the same options record); the first option error is returned with no key and no options.
+//@ func doParseKeyAndOptions
+//@   prop C05
+//@   opaque parseSegments, parseOption
+//@   let segs = ret(parseSegments)
+//@   ensures [segments-of-the-tag] calls(parseSegments) == 1 && arg(parseSegments, 0) == value
+//@   ensures [key-is-the-first-segment] result2 == nil && len(segs) >= 1 ==> result0 == ret(strings.TrimSpace, 0, 1) && arg(strings.TrimSpace, 0, 1) == segs[0]
+//@   ensures [key-only] len(segs) == 1 ==> result1 == nil && result2 == nil && calls(parseOption) == 0
+//@   loop 1 invariant len(segments) > 1 && segments == segs && len(options) == len(segments) - 1 && 0 <= rangeindex + 1 && rangeindex + 1 <= len(options) && calls(parseOption) == rangeindex + 1
+//@   loop 1 iteration-ensures [option-parsed-in-order] calls(parseOption) == 1 && ret(parseOption) == nil && arg(parseOption, 1) == field.Name && arg(parseOption, 2) == ret(strings.TrimSpace) && arg(strings.TrimSpace, 0) == options[rangeindex]
+//@   ensures [option-error] result2 != nil ==> result0 == "" && result1 == nil && result2 == ret(parseOption, 0, last)
+//@   ensures [every-option-parsed] result2 == nil && len(segs) > 1 ==> result1 != nil && calls(parseOption) == len(segs) - 1
+//@   ensures [t1] len(segs) > 1 ==> calls(parseSegments) == 1
+//@   ensures [t2] result2 == nil && calls(parseOption) >= 1 ==> calls(parseSegments) == 1
+//@   ensures [t3] result2 == nil && result1 != nil ==> calls(parseSegments) == 1
